@@ -250,6 +250,27 @@ class Runner:
         return fails, {v: obs.get(v) for v in vids}
 
 
+def check_noabort_hypothesis(cases_path):
+    """hypothesis no_abort_in_batch on the implementation: a batchable command that passed
+    isValidBatchableWrite (valid = 1) never fails with an abort-class error (class a)."""
+    bad, seen = [], 0
+    for line in open(cases_path, errors="replace"):
+        f = line.rstrip("\n").split("\t")
+        if len(f) < 3 or f[1] != "B":
+            continue
+        for op in f[2].split("|"):
+            for c in op.split(";"):
+                for r in c.lstrip("!").split(","):
+                    q = r.split(".")
+                    if len(q) >= 7 and q[0] == "R":
+                        name = unh(q[1]).decode("latin1")
+                        if name in BATCHABLE:
+                            seen += 1
+                            if q[4] == "1" and q[5] == "a" and not (name == "del" and q[3] != "2"):
+                                bad.append((f[0], name, r))
+    return bad, seen
+
+
 def decode_log(line):
     f = line.split("\t")
     out = []
@@ -373,6 +394,14 @@ def run(ctx):
             for k, v in s1["by_dim"].items():
                 stats["by_dim"][k] = stats["by_dim"].get(k, 0) + v
         all_fail += process_failures(R, logs, fails, 6 if quick else 20)
+        hb, hs = check_noabort_hypothesis(os.path.join(d, "cases.tsv"))
+        stats["noabort_checked"] = stats.get("noabort_checked", 0) + hs
+        for vid, name, r in hb[:3]:
+            lid = vid.split(".")[0]
+            all_fail.append(dict(name="noabort-" + vid, signature="hypothesis no_abort_in_batch: " + name,
+                                 case=dict(cases_tsv=[logs[lid]["line"], logs[lid]["vars"][vid[:-2]]], request=r),
+                                 what="a %s that passed isValidBatchableWrite failed with an abort-class error at apply "
+                                      "(hypothesis no_abort_in_batch of C07_batch_equiv_partial does not hold for the handlers)" % name))
         for lid in order:
             names = cmd_names(logs[lid]["reqs"])
             for nm in names:
@@ -434,7 +463,8 @@ def run(ctx):
              "by hash of log+variants. traces_validated = (log, variant) runs whose batch-operator call sequence and reply kinds the "
              "extracted model predicted.",
         histogram=dict(commands=dict(top[:60]), comparisons_by_dimension=stats["by_dim"], logs=stats["logs"],
-                       logs_skipped_for_go_panic=stats["skipped_panic"], raw_only_differences=stats["raw_only_diffs"]),
+                       logs_skipped_for_go_panic=stats["skipped_panic"], raw_only_differences=stats["raw_only_diffs"],
+                       batchable_requests_checked_for_no_abort=stats.get("noabort_checked", 0)),
         mismatches=len(all_mism),
         samples=samples[:5],
     ), assumptions=[
